@@ -118,3 +118,34 @@ Proof.
   split; [by_compute X (CVal (VRec "MigrateCtx" [("deps", deps); ("env", env)])) 14|].
   by_compute X (CVal (VRec "ReplyCtx" [("deps", deps); ("env", env); ("gas_used", gas); ("events", events); ("msg_responses", resps)])) 16.
 Qed.
+
+(* ---- BoundQuerier (the query side of a handle) and the remaining helpers of Remote *)
+Definition cow (owned : bool) (addr : string) : value := VCon (if owned then "Cow::Owned" else "Cow::Borrowed") [VStr addr].
+Definition bq_val (c q : value) : value := VRec "BoundQuerier" [("contract", c); ("querier", q); ("_phantom", phantom)].
+
+Lemma calls_bq_borrowed d c q : calls T (S d) "BoundQuerier::borrowed" [c; q] (CVal (bq_val c q)).
+Proof. by_compute T (CVal (bq_val c q)) 12. Qed.
+
+Lemma calls_bq_from d c q : calls T (S (S d)) "BoundQuerier::from" [bq_val c q] (CVal (bq_val c q)).
+Proof.
+  eapply (calls_intro T) with (c := CVal (bq_val c q)); try reflexivity.
+  simpl fn_body. eapply ev_block; [|reflexivity]. apply ev_stmts_tail. eapply ev_call.
+  - apply (evals_list_compute T 6). intros g fl. reflexivity.
+  - apply calls_bq_borrowed.
+Qed.
+
+(* a handle bound to a querier keeps the handle's address and exactly that querier; the accessors return them; copying a
+   bound querier (From<&BoundQuerier>) changes nothing; AsRef gives the handle's address *)
+Theorem translated_bound_querier d (owned : bool) addr q c :
+  calls T (S d) "Remote::querier" [remote_val owned addr; q] (CVal (bq_val (cow owned addr) q)) /\
+  calls T (S d) "BoundQuerier::contract" [bq_val c q] (CVal c) /\
+  calls T (S d) "BoundQuerier::querier" [bq_val c q] (CVal q) /\
+  calls T (S d) "BoundQuerier::borrowed" [c; q] (CVal (bq_val c q)) /\
+  calls T (S (S d)) "BoundQuerier::from" [bq_val c q] (CVal (bq_val c q)) /\
+  calls T (S d) "Remote::as_ref" [remote_val owned addr] (CVal (cow owned addr)).
+Proof.
+  split; [destruct owned; [by_compute T (CVal (bq_val (cow true addr) q)) 12 | by_compute T (CVal (bq_val (cow false addr) q)) 12]|].
+  split; [by_compute T (CVal c) 8|]. split; [by_compute T (CVal q) 8|].
+  split; [apply calls_bq_borrowed|]. split; [apply calls_bq_from|].
+  destruct owned; [by_compute T (CVal (cow true addr)) 8 | by_compute T (CVal (cow false addr)) 8].
+Qed.
